@@ -366,7 +366,7 @@ class C14(OptEngineBase):
     ENGINE_NAME = "simio"
     TIERS = {
         "quick": {"runs": 4000, "budget_s": 75, "chunk": 32},
-        "thorough": {"runs": 160000, "budget_s": 900, "chunk": 64},
+        "thorough": {"runs": 100000, "budget_s": 900, "chunk": 64},
     }
     RULE = (
         "Each run = one seeded .g2o text synthesised from a line grammar (ten built-in tags + two registered custom tags; "
